@@ -192,18 +192,24 @@ func ruleREADLOCATION(p *Program, rep *Report) {
 		return true
 	}
 	n := 0
-	for _, b := range getPage.Blocks {
-		for _, ins := range b.Instrs {
-			st, ok := ins.(*ssa.Store)
-			if !ok || addrField(st.Addr) != ondisk {
-				continue
-			}
-			n++
-			key := "Tx.getPage|ondiskID="
-			if exact(st.Val, 0) {
-				rep.OK("READ-LOCATION", key, p.InstrPos(ins), "ondiskID := committed mapping lookup")
-			} else {
-				rep.Bad("READ-LOCATION", key, p.InstrPos(ins), "the read location of a page is not taken unconditionally from the committed overwrite mapping: a page whose overwrite page was released earlier in this transaction (checkpoint) is read from its original location before the queued copy has been written — stale bytes are returned and can be committed")
+	newPage := p.Func("txfile", "newPage")
+	for _, fn := range sortedFns(staticReach(p, getPage)) {
+		if fn == newPage {
+			continue // the constructor's default (the page's own id)
+		}
+		for _, b := range fn.Blocks {
+			for _, ins := range b.Instrs {
+				st, ok := ins.(*ssa.Store)
+				if !ok || addrField(st.Addr) != ondisk {
+					continue
+				}
+				n++
+				key := "Tx.getPage|ondiskID="
+				if exact(st.Val, 0) {
+					rep.OK("READ-LOCATION", key, p.InstrPos(ins), "ondiskID := committed mapping lookup")
+				} else {
+					rep.Bad("READ-LOCATION", key, p.InstrPos(ins), "the read location of a page is not taken unconditionally from the committed overwrite mapping: a page whose overwrite page was released earlier in this transaction (checkpoint) is read from its original location before the queued copy has been written — stale bytes are returned and can be committed")
+				}
 			}
 		}
 	}
@@ -215,113 +221,125 @@ func ruleREADLOCATION(p *Program, rep *Report) {
 // ruleSNAPSHOTAFTERALLOC: the free lists that are serialized by a commit are read from the allocator only
 // after the commit's own meta-page allocation (which may move regions from the data to the meta area).
 func ruleSNAPSHOTAFTERALLOC(p *Program, rep *Report) {
-	rep.Rule("SNAPSHOT-AFTER-ALLOC", 2, "in allocator.fileCommitAlloc the free lists stored into the commit state are built from loads of freelist.regions that come after every call that can still change the free lists (the allocation of the pages that will hold the new free list)")
-	fn := p.Method("txfile", "allocator", "fileCommitAlloc")
+	rep.Rule("SNAPSHOT-AFTER-ALLOC", 2, "the free lists a commit stores into its commit state (allocCommitState.dataList / metaList) are built from loads of freelist.regions that come after every call that can still change the free lists (the allocation of the pages that will hold the new free list); decided over fileCommitAlloc and its helpers")
+	root := p.Method("txfile", "allocator", "fileCommitAlloc")
 	v := newAllocVocab(p)
-	rep.Analysed(funcName(fn))
 	eff := p.Effects()
-	// calls that may modify a freelist
-	var mutators []ssa.CallInstruction
-	for _, b := range fn.Blocks {
-		for _, ins := range b.Instrs {
-			c, ok := ins.(ssa.CallInstruction)
-			if !ok {
-				continue
-			}
-			sc := c.Common().StaticCallee()
-			if sc == nil || !p.InRepo(sc) {
-				continue
-			}
-			if e := eff.Of(sc); e != nil && (e.mods[v.fRegions] || e.mods[v.fAvail]) {
-				mutators = append(mutators, c)
-				rep.Note("SNAPSHOT-AFTER-ALLOC: free-list changing call %s at %s", funcName(sc), p.InstrPos(c))
-			}
-		}
-	}
-	if len(mutators) == 0 {
-		rep.Unknown("SNAPSHOT-AFTER-ALLOC", "fileCommitAlloc|anchor", p.Pos(fn.Pos()), "no free-list changing call found in fileCommitAlloc (anchor lost)")
-		return
-	}
-	// loads of freelist.regions that flow into the stored lists
-	var flows func(x ssa.Value, seen map[ssa.Value]bool, out *[]*ssa.UnOp)
-	flows = func(x ssa.Value, seen map[ssa.Value]bool, out *[]*ssa.UnOp) {
-		if x == nil || seen[x] {
-			return
-		}
-		seen[x] = true
-		switch y := x.(type) {
-		case *ssa.UnOp:
-			if loadedField(y) == v.fRegions {
-				*out = append(*out, y)
-			}
-		case *ssa.Call:
-			for _, a := range y.Common().Args {
-				flows(a, seen, out)
-			}
-		case *ssa.Extract:
-			flows(y.Tuple, seen, out)
-		case *ssa.Phi:
-			for _, e := range y.Edges {
-				flows(e, seen, out)
-			}
-		case *ssa.Slice:
-			flows(y.X, seen, out)
-		case *ssa.ChangeType:
-			flows(y.X, seen, out)
-		}
-	}
+	reach := staticReach(p, root)
+	// stores of the new lists anywhere below the root
 	n := 0
-	for _, b := range fn.Blocks {
-		for _, ins := range b.Instrs {
-			st, ok := ins.(*ssa.Store)
-			if !ok {
-				continue
-			}
-			f := addrField(st.Addr)
-			if f == nil || fieldOwner(p, f) != "allocCommitState" || (f.Name() != "dataList" && f.Name() != "metaList") {
-				continue
-			}
-			var loads []*ssa.UnOp
-			flows(st.Val, map[ssa.Value]bool{}, &loads)
-			for _, ld := range loads {
-				n++
-				okAll := true
-				for _, m := range mutators {
-					// the mutator must not be executable after the load
-					after := false
-					if m.Block() == ld.Block() {
-						after = instrIndex(m.Block(), m) > instrIndex(ld.Block(), ld)
-					}
-					if !after {
-						reach := map[*ssa.BasicBlock]bool{}
-						work := append([]*ssa.BasicBlock(nil), ld.Block().Succs...)
-						for len(work) > 0 {
-							x := work[len(work)-1]
-							work = work[:len(work)-1]
-							if reach[x] {
-								continue
-							}
-							reach[x] = true
-							work = append(work, x.Succs...)
-						}
-						after = reach[m.Block()]
-					}
-					if after {
-						okAll = false
-					}
+	for _, fn := range sortedFns(reach) {
+		for _, b := range fn.Blocks {
+			for _, ins := range b.Instrs {
+				st, ok := ins.(*ssa.Store)
+				if !ok {
+					continue
 				}
-				key := "allocator.fileCommitAlloc|" + f.Name()
-				if okAll {
-					rep.OK("SNAPSHOT-AFTER-ALLOC", key, p.InstrPos(ld), "free list read after the commit's own allocation")
-				} else {
-					rep.Bad("SNAPSHOT-AFTER-ALLOC", key, p.InstrPos(ld), "the free list that is serialized and installed by the commit is read before the commit allocates the pages for it: a region that this allocation moves from the data area into the meta area stays in the stale copy, the same pages end up data-free and meta-owned")
+				f := addrField(st.Addr)
+				if f == nil || fieldOwner(p, f) != "allocCommitState" || (f.Name() != "dataList" && f.Name() != "metaList") {
+					continue
+				}
+				rep.Analysed(funcName(fn))
+				sl := &slicer{p: p, fields: map[*types.Var]bool{}, seen: map[sliceKey]bool{}, within: reach}
+				sl.walk(st.Val, 0, nil, 0)
+				for _, ld := range sl.loads {
+					if loadedField(ld) != v.fRegions || !reach[ld.Parent()] {
+						continue
+					}
+					n++
+					key := "allocator.fileCommitAlloc|" + f.Name()
+					stale, undecided := snapshotStale(p, eff, v, root, ld, 0)
+					switch {
+					case undecided != "":
+						rep.Unknown("SNAPSHOT-AFTER-ALLOC", key, p.InstrPos(ld), undecided)
+					case stale != nil:
+						rep.Bad("SNAPSHOT-AFTER-ALLOC", key, p.InstrPos(ld), "the free list that is serialized and installed by the commit is read before the commit allocates the pages for it ("+funcName(stale.Common().StaticCallee())+" at "+p.InstrPos(stale)+" can still change it): a region that this allocation moves from the data area into the meta area stays in the stale copy, the same pages end up data-free and meta-owned")
+					default:
+						rep.OK("SNAPSHOT-AFTER-ALLOC", key, p.InstrPos(ld), "free list read after the commit's own allocation")
+					}
 				}
 			}
 		}
 	}
 	if n == 0 {
-		rep.Unknown("SNAPSHOT-AFTER-ALLOC", "fileCommitAlloc|lists", p.Pos(fn.Pos()), "the new free lists are not built from loads of freelist.regions (anchor lost)")
+		rep.Unknown("SNAPSHOT-AFTER-ALLOC", "fileCommitAlloc|lists", p.Pos(root.Pos()), "the new free lists are not built from loads of freelist.regions (anchor lost)")
 	}
+}
+
+// snapshotStale: some call in root that can modify a free list is executable after the load ld (ld lies in
+// root or in a function root calls).  Returns the offending call.
+func snapshotStale(p *Program, eff *Effects, v *allocVocab, root *ssa.Function, ld ssa.Instruction, depth int) (ssa.CallInstruction, string) {
+	if depth > 3 {
+		return nil, "helper nesting too deep to order the free-list read against the allocation"
+	}
+	// position(s) of the load at the level of root
+	var positions []ssa.Instruction
+	if ld.Parent() == root {
+		positions = []ssa.Instruction{ld}
+	} else {
+		for _, b := range root.Blocks {
+			for _, ins := range b.Instrs {
+				c, ok := ins.(ssa.CallInstruction)
+				if !ok {
+					continue
+				}
+				if sc := c.Common().StaticCallee(); sc != nil && p.InRepo(sc) && staticReach(p, sc)[ld.Parent()] {
+					positions = append(positions, ins)
+				}
+			}
+		}
+	}
+	if len(positions) == 0 {
+		return nil, "free-list read not located below " + funcName(root)
+	}
+	for _, b := range root.Blocks {
+		for _, ins := range b.Instrs {
+			m, ok := ins.(ssa.CallInstruction)
+			if !ok {
+				continue
+			}
+			sc := m.Common().StaticCallee()
+			if sc == nil || !p.InRepo(sc) {
+				continue
+			}
+			e := eff.Of(sc)
+			if e == nil || !(e.mods[v.fRegions] || e.mods[v.fAvail]) {
+				continue
+			}
+			for _, pos := range positions {
+				if pos == ins {
+					// the read happens inside the call that also changes the lists: order them inside the callee
+					if bad, und := snapshotStale(p, eff, v, sc, ld, depth+1); bad != nil || und != "" {
+						return bad, und
+					}
+					continue
+				}
+				if executableAfter(pos, ins) {
+					return m, ""
+				}
+			}
+		}
+	}
+	return nil, ""
+}
+
+// executableAfter: instruction b can execute after instruction a (same function).
+func executableAfter(a, b ssa.Instruction) bool {
+	if a.Block() == b.Block() && instrIndex(b.Block(), b) > instrIndex(a.Block(), a) {
+		return true
+	}
+	reach := map[*ssa.BasicBlock]bool{}
+	work := append([]*ssa.BasicBlock(nil), a.Block().Succs...)
+	for len(work) > 0 {
+		x := work[len(work)-1]
+		work = work[:len(work)-1]
+		if reach[x] {
+			continue
+		}
+		reach[x] = true
+		work = append(work, x.Succs...)
+	}
+	return reach[b.Block()]
 }
 
 // ruleTRUNCATECOVERS: a size handed to Truncate depends on BOTH end markers (file end = max of the data
